@@ -368,20 +368,27 @@ def run_harness(h, known=(), want_trace=True, deadline=None):
 
 def _escape_probe(h, eng, res, known, budget=4000):
     """After a SymbolicEscape: run the real code CONCRETELY (no shims) on boundary values of every declared
-    integer input (one input varied at a time around a base point: range ends, 0, +-1, 2**k-1, 2**k, 2**k+1 and
-    their negatives).  A failing post-condition is a replayed violation by construction.  Finding nothing proves
+    integer input (one input varied at a time around the base points 0, 1, -1, 3: range ends, 0, +-1, 2**k-1, 2**k,
+    2**k+1 and their negatives).  A failing post-condition is a replayed violation by construction.  Finding nothing proves
     nothing: the SymbolicEscape error is kept, so the check still does not pass."""
     decl = dict(eng.inputs)
-    base = {}
-    for k, v in decl.items():
-        if isinstance(v, SymInt):
-            base[k] = min(max(0, v.lo), v.hi)
-        elif isinstance(v, SymBool):
-            base[k] = False
-        else:
-            base[k] = v
     runs = 0
     found = set()
+    for b0 in (0, 1, -1, 3):
+        base = {}
+        for k, v in decl.items():
+            if isinstance(v, SymInt):
+                base[k] = min(max(b0, v.lo), v.hi)
+            elif isinstance(v, SymBool):
+                base[k] = False
+            else:
+                base[k] = v
+        runs = _probe_around(h, decl, base, res, known, found, runs, budget)
+        if runs >= budget:
+            return
+
+
+def _probe_around(h, decl, base, res, known, found, runs, budget):
     for k, v in decl.items():
         if not isinstance(v, SymInt):
             continue
@@ -392,7 +399,7 @@ def _escape_probe(h, eng, res, known, budget=4000):
                 cands.update((c, -c))
         for c in sorted(x for x in cands if v.lo <= x <= v.hi):
             if runs >= budget:
-                return
+                return runs
             runs += 1
             values = dict(base)
             values[k] = c
@@ -417,6 +424,7 @@ def _escape_probe(h, eng, res, known, budget=4000):
                 res["violations"].append(dict(harness=h.name, params=h.params, label=label,
                                               inputs=_jsonable(values), module=type(h).__module__,
                                               cls=type(h).__name__, found_by="concrete boundary probe after SymbolicEscape"))
+    return runs
 
 
 def _replays(h, values, label):
